@@ -1386,7 +1386,7 @@ func pathValidatorKinds(fn *ssa.Function) map[string]bool {
 			switch {
 			case f.Name() == "HasPrefix" && s == "/":
 				out["leading-slash"] = true
-			case f.Name() == "Contains" && s == "//":
+			case (f.Name() == "Contains" || f.Name() == "Index" || f.Name() == "Count" || f.Name() == "LastIndex") && s == "//":
 				out["consecutive-slashes"] = true
 			}
 		}
